@@ -245,6 +245,12 @@ func (f *FBaseProcessorFunction) SendReply(fctx FContext, oprot *FProtocol, meth
 
 func (f *FBaseProcessorFunction) trapError(ctx context.Context, fctx FContext, oprot *FProtocol, method string, err error) error {
 	if IsErrTooLarge(err) {
+		// Thrift's JSON protocols write through a bufio.Writer, which keeps a
+		// failed Flush as a sticky error (and the protocol keeps its nesting
+		// state): start the error reply from a clean protocol state.
+		if r, ok := oprot.TProtocol.(interface{ Reset() }); ok {
+			r.Reset()
+		}
 		f.sendError(ctx, fctx, oprot, APPLICATION_EXCEPTION_RESPONSE_TOO_LARGE, method, err.Error())
 		return nil
 	}
